@@ -45,6 +45,7 @@ TECHNIQUE = ("Lean 4 theorems over step programs with the code's error handling,
 SP = "signac_statepoint.json"
 DOC = "signac_job_document.json"
 ERRNOS = ["EIO", "ENOSPC", "EACCES", "EXDEV", "EROFS"]
+_TMPC = re.compile(r"^\._TMP_(.*)$")
 _TMP = re.compile(r"^\._[0-9a-f]{8}-[0-9a-f]{4}-[0-9a-f]{4}-[0-9a-f]{4}-[0-9a-f]{12}_(.*)$")
 
 
@@ -250,7 +251,7 @@ def read_dir(path):
             with open(e.path, "rb") as f:
                 raw = f.read()
             d["raw"][faultfs.canon_name(r)] = raw
-            m = _TMP.match(e.name)
+            m = _TMP.match(e.name) or _TMPC.match(faultfs.canon_name(e.name))   # any temp-name scheme
             if not rel and e.name == SP:
                 d["sp"] = classify(raw)
                 order.append(("s",))
